@@ -260,37 +260,37 @@ def get_schedule_from_csv(obj, dir_path):
             target = float(row[col_idx])
             window = row[window_col_idx].strip() == '1' if window_col_idx is not None else None
 
+            # get start_time (for every row: vehicle schedules may change without the target)
+            try:
+                # read out event start time from first column
+                start_time = util.datetime_from_isoformat(row[0])
+                if (start is None or start.tzinfo) and not start_time.tzinfo:
+                    # make timezone-aware for comparison
+                    start_time = start_time.replace(
+                        tzinfo=datetime.timezone(datetime.timedelta(hours=2)))
+                # default for start: use first start_time
+                start = start or start_time
+            except ValueError:
+                # could not parse time: get start time from position in file
+                start_time = idx * interval + start
+
+            # convention: schedule sent one day before at 9am, valid from noon
+            if start_time.hour < 12:
+                signal_time = start_time - datetime.timedelta(days=2)
+            else:
+                signal_time = start_time - datetime.timedelta(days=1)
+            signal_time = signal_time.replace(hour=9, minute=0, second=0)
+            # don't signal before start of simulation
+            signal_time = max(start, signal_time)
+
+            assert signal_time <= start_time, (
+                "Wrong signal in {} at index {}, starts before being sent (check your dates!)"
+                .format(obj['csv_file'], idx + 1))
+
             if target != last_target or window != last_window:
                 # targets/window different: generate new event
                 last_target = target
                 last_window = window
-
-                # get start_time
-                try:
-                    # read out event start time from first column
-                    start_time = util.datetime_from_isoformat(row[0])
-                    if (start is None or start.tzinfo) and not start_time.tzinfo:
-                        # make timezone-aware for comparison
-                        start_time = start_time.replace(
-                            tzinfo=datetime.timezone(datetime.timedelta(hours=2)))
-                    # default for start: use first start_time
-                    start = start or start_time
-                except ValueError:
-                    # could not parse time: get start time from position in file
-                    start_time = idx * interval + start
-
-                # convention: schedule sent one day before at 9am, valid from noon
-                if start_time.hour < 12:
-                    signal_time = start_time - datetime.timedelta(days=2)
-                else:
-                    signal_time = start_time - datetime.timedelta(days=1)
-                signal_time = signal_time.replace(hour=9, minute=0, second=0)
-                # don't signal before start of simulation
-                signal_time = max(start, signal_time)
-
-                assert signal_time <= start_time, (
-                    "Wrong signal in {} at index {}, starts before being sent (check your dates!)"
-                    .format(obj['csv_file'], idx + 1))
 
                 schedule.append(GridOperatorSignal({
                     "start_time": start_time.isoformat(),
